@@ -3,7 +3,21 @@ stream_serialize / stream_deserialize method, in order of appearance, read from 
 source by `ast` -> coq/Gen/Layouts.v.  Fail closed on any format it does not know."""
 import ast
 
-FMT = {'<B': 'U8', 'B': 'U8', '<H': 'U16', '<I': 'U32', '<Q': 'U64', '<i': 'I32', '<q': 'I64'}
+CHAR = {'B': 'U8', 'H': 'U16', 'I': 'U32', 'Q': 'U64', 'i': 'I32', 'q': 'I64'}
+
+
+def split_format(s):
+    """'<I' -> ['U32'];  a multi-field little-endian format such as '<qI' or '<ii' is
+    flattened into its fields (a refactoring that merges two struct.pack calls keeps the
+    layout translatable; any change of a field's type then shows up in the theorems)."""
+    body = s[1:] if s[:1] == '<' else s
+    if s[:1] in ('>', '!', '@', '=') or not body or any(c not in CHAR for c in body):
+        raise ValueError('unknown struct format %r' % s)
+    if len(body) > 1 and s[:1] != '<':
+        raise ValueError('multi-field format without explicit little-endian byte order: %r' % s)
+    return [CHAR[c] for c in body]
+
+
 CLASSES = [
     ('bitcoin/core/__init__.py', ['COutPoint', 'CTxIn', 'CTxOut', 'CTransaction', 'CBlockHeader']),
     ('bitcoin/core/serialize.py', ['VarIntSerializer']),
@@ -19,10 +33,8 @@ def formats(func):
             if not isinstance(a, ast.Constant):
                 raise ValueError('non-literal struct format')
             s = a.value.decode() if isinstance(a.value, bytes) else a.value
-            if s not in FMT:
-                raise ValueError('unknown struct format %r' % s)
-            out.append((n.lineno, n.col_offset, FMT[s]))
-    return [f for _, _, f in sorted(out)]
+            out.append((n.lineno, n.col_offset, split_format(s)))
+    return [f for _, _, fs in sorted(out) for f in fs]
 
 
 def raw_sizes(func):
